@@ -2,7 +2,9 @@
 """Regenerates MANIFEST.json from legs.py (single source of truth for what is claimed)."""
 import json, os, sys
 sys.path.insert(0, os.path.dirname(os.path.abspath(__file__)))
-from legs import PROPS, NOT_APPLICABLE
+from legs import PROPS, NA_REASONS
+NOT_APPLICABLE = [{"property_id": p, "reason": NA_REASONS.get(p, "check under construction in this session - not yet claimed")}
+                  for p in ["C%02d" % i for i in range(1, 21)] if p not in PROPS]
 
 BASE = open("/root/.vp/BASELINE.json").read()
 baseline_cmd = json.loads(BASE)["cmd"]
